@@ -495,11 +495,18 @@ func (fi *fnInfo) outerOf(it *iter) *iter {
 
 // keysOf: when it ranges over a slice that was filled with every key of a map
 // inside an exhaustive map-range loop (and possibly sorted), return that map's
-// provenance: the loop visits every key of the map.
+// provenance: the loop visits every key of the map. The slice may also be the
+// result of an in-package (possibly generic) helper that builds it that way from
+// its map parameter (sortedMapKeys(m)).
 func (fi *fnInfo) keysOf(it *iter) (string, bool) {
 	if it.kind != "slice" {
 		return "", false
 	}
+	return fi.keysOfValue(it.coll, 3)
+}
+
+// keysOfValue: v is a slice holding every key of the map whose provenance is returned.
+func (fi *fnInfo) keysOfValue(v ssa.Value, depth int) (string, bool) {
 	found, ok := "", false
 	seen := map[ssa.Value]bool{}
 	var walk func(v ssa.Value)
@@ -515,6 +522,8 @@ func (fi *fnInfo) keysOf(it *iter) (string, bool) {
 			}
 		case *ssa.Slice:
 			walk(x.X)
+		case *ssa.ChangeType:
+			walk(x.X)
 		case *ssa.UnOp:
 			// a variable captured by a closure (sort.Slice's less) lives in a cell
 			if cell, isCell := x.X.(*ssa.Alloc); isCell && x.Op == token.MUL {
@@ -525,22 +534,46 @@ func (fi *fnInfo) keysOf(it *iter) (string, bool) {
 				}
 			}
 		case *ssa.Call:
-			if ssau.Builtin(x) != "append" {
+			if ssau.Builtin(x) == "append" {
+				src := fi.loopOf(x)
+				if src != nil && src.kind == "map" && len(x.Call.Args) == 2 {
+					// appended element = the key of the source loop
+					want := fi.prov(src.coll) + "[k" + src.tag + "]"
+					elemOK := derives(x.Call.Args[1], func(y ssa.Value) bool { return fi.prov(y) == want })
+					if elemOK && !src.skips(func(in ssa.Instruction) bool { return in == ssa.Instruction(x) }, nil) && len(src.earlyExits()) == 0 {
+						found, ok = fi.prov(src.coll), true
+						return
+					}
+				}
+				walk(x.Call.Args[0])
 				return
 			}
-			src := fi.loopOf(x)
-			if src != nil && src.kind == "map" && len(x.Call.Args) == 2 {
-				// appended element = the key of the source loop
-				want := fi.prov(src.coll) + "[k" + src.tag + "]"
-				elemOK := derives(x.Call.Args[1], func(y ssa.Value) bool { return fi.prov(y) == want })
-				if elemOK && !src.skips(func(in ssa.Instruction) bool { return in == ssa.Instruction(x) }, nil) && len(src.earlyExits()) == 0 {
-					found, ok = fi.prov(src.coll), true
+			// an in-package helper returning every key of one of its map parameters
+			g := x.Common().StaticCallee()
+			if g == nil || g.Blocks == nil || depth <= 0 || x.Common().IsInvoke() || funcPkgPath(g) != funcPkgPath(fi.fn) || len(g.Params) != len(x.Common().Args) {
+				return
+			}
+			gfi := newFnInfo(g)
+			which := ""
+			sites := flow.ReturnSites(g, 0)
+			for _, s := range sites {
+				m, isKeys := gfi.keysOfValue(s.Val, depth-1)
+				if !isKeys || (which != "" && which != m) {
+					return
+				}
+				which = m
+			}
+			if which == "" {
+				return
+			}
+			for j, prm := range g.Params {
+				if _, isMap := prm.Type().Underlying().(*types.Map); isMap && prm.Name() == which {
+					found, ok = fi.prov(x.Common().Args[j]), true
 					return
 				}
 			}
-			walk(x.Call.Args[0])
 		}
 	}
-	walk(it.coll)
+	walk(v)
 	return found, ok
 }
